@@ -599,8 +599,109 @@ def r07f(ctx):
            where(fn, bad_node) if bad_node is not None else where(fn))
 
 
+def r07g(ctx):
+    """R07f on a world: fuse_consecutive_layers is interpreted (finite interpreter) on an fx graph
+    in which one (layer, BatchNorm) pair of modules is invoked at two call sites -- same targets,
+    different node names, as fx produces for weight sharing -- next to a pair invoked once; the
+    in-place fusion function must be called exactly once per pair of MODULES."""
+    from ..mini import Mini, Obj, Raised, Token, Unsupported
+    repo = ctx.repo
+    fn = repo.fn('transformation.fuse_consecutive_layers')
+    NODE, FIRST, SECOND = Token('cls:Node'), Token('cls:First'), Token('cls:Second')
+
+    def mk_mod(cls):
+        o = Obj('Module')
+        o.attrs['_cls'] = cls
+        return o
+    mods = {'enc': mk_mod(FIRST), 'enc_bn': mk_mod(SECOND), 'head': mk_mod(FIRST),
+            'head_bn': mk_mod(SECOND)}
+
+    def mk_node(name, op, target, args):
+        o = Obj('Node')
+        o.attrs.update({'name': name, 'op': op, 'target': target, 'args': args, '_cls': NODE,
+                        'users': {}, 'meta': {}})
+        for a in args:
+            if isinstance(a, Obj):
+                a.attrs['users'][id(o)] = o
+        return o
+    x1 = mk_node('a', 'placeholder', 'a', ())
+    x2 = mk_node('b', 'placeholder', 'b', ())
+    c1 = mk_node('enc', 'call_module', 'enc', (x1,))
+    b1 = mk_node('enc_bn', 'call_module', 'enc_bn', (c1,))
+    c2 = mk_node('enc_1', 'call_module', 'enc', (x2,))
+    b2 = mk_node('enc_bn_1', 'call_module', 'enc_bn', (c2,))
+    h = mk_node('head', 'call_module', 'head', (b1,))
+    hb = mk_node('head_bn', 'call_module', 'head_bn', (h,))
+    out = mk_node('output', 'output', 'output', ((hb, b2),))
+    nodes = [x1, x2, c1, b1, c2, b2, h, hb, out]
+    calls = []
+
+    class _F(Mini):
+        def expr(self, e, env):
+            if isinstance(e, ast.Attribute):
+                o = self.expr(e.value, env)
+                if isinstance(o, Obj):
+                    return o.attrs[e.attr] if e.attr in o.attrs else ('boundmethod', o, e.attr)
+                return ('boundmethod', o, e.attr)
+            return super().expr(e, env)
+
+        def builtin(self, name, args, kwargs, node_):
+            if name == 'isinstance':
+                cs = args[1] if isinstance(args[1], tuple) and not (
+                    len(args[1]) == 3 and args[1][0] == 'boundmethod') else (args[1],)
+                return isinstance(args[0], Obj) and args[0].attrs.get('_cls') in cs
+            if name == 'dict':
+                return dict(args[0]) if args else {}
+            if name == 'id':
+                return id(args[0])
+            return super().builtin(name, args, kwargs, node_)
+
+        def method(self, o, name, args, kwargs, node_):
+            if isinstance(o, Obj) and o.cls_name == 'GraphModule':
+                if name == 'named_modules':
+                    return list(mods.items())
+                if name in ('delete_all_unused_submodules', 'recompile'):
+                    return None
+            if isinstance(o, Obj) and o.cls_name == 'Graph' and name in ('erase_node', 'lint'):
+                return None
+            if isinstance(o, Obj) and o.cls_name == 'Node' and name in (
+                    'replace_all_uses_with', 'replace_input_with'):
+                return None
+            return super().method(o, name, args, kwargs, node_)
+    graph = Obj('Graph')
+    graph.attrs['nodes'] = nodes
+    mod = Obj('GraphModule')
+    mod.attrs['graph'] = graph
+    fxp = Obj('pkg')
+    fxp.attrs['Node'] = NODE
+    nnp = Obj('pkg')
+    nnp.attrs['Module'] = Token('cls:Module')
+    fusion = Token('fusion_fn', lambda a, b: calls.append((a, b)))
+    glob = {'fx': fxp, 'nn': nnp,
+            'replace_node_module': Token('replace_node_module', lambda *a: None)}
+    try:
+        _F(glob).call_function(fn.node, [mod, FIRST, SECOND, fusion], {'in_place': True})
+    except (Unsupported, Raised) as ex:
+        raise AnalysisError(f'R07g: fuse_consecutive_layers is outside the interpreted subset: '
+                            f'{ex}')
+    per_pair = {}
+    for a, b in calls:
+        k = (next(n_ for n_, m in mods.items() if m is a), next(n_ for n_, m in mods.items()
+                                                              if m is b))
+        per_pair[k] = per_pair.get(k, 0) + 1
+    want = {('enc', 'enc_bn'): 1, ('head', 'head_bn'): 1}
+    ok = per_pair == want
+    ctx.ob('R07g', 'fusion applied once per pair of modules (weight sharing world)', ok,
+           'enc+enc_bn (two call sites) and head+head_bn (one) are each fused once' if ok else
+           f'the in-place fusion function is called {per_pair}: a layer + BatchNorm pair invoked '
+           f'at two call sites (fx gives the call sites different node names but the same '
+           f'target) is folded more than once with fold_bn=True, so the converted model no '
+           f'longer computes the original function', where(fn))
+
+
 def run(ctx):
     r07f(ctx)
+    r07g(ctx)
     r07a(ctx)
     r07b(ctx)
     r07c(ctx)
